@@ -297,6 +297,10 @@ def bounded_small_alphabet(reg, tier, seed):
                 ok, why = False, "decoder disagrees with reference semantics"
             if len(z) > 0x3000 + 256:
                 ok, why = False, "expansion beyond cap + one step"
+            # the other direction of the cap: the decoder looks at its output before every input byte, so a normal return means no
+            # proper prefix had expanded beyond the cap (expansion length is monotone in the prefix: the longest one decides)
+            if len(x) > 0 and len(ref_RL(x[:-1])) > 0x3000:
+                ok, why = False, "decoder went on expanding although a proper prefix of the input had already expanded beyond the cap"
         except ValueError:
             if all(len(ref_RL(x[:j])) <= 0x3000 for j in range(len(x))):
                 ok, why = False, "decoder refused although no prefix exceeds the cap"
@@ -358,6 +362,10 @@ def bounded_small_alphabet(reg, tier, seed):
     for k in (47, 48, 49, 97):
         for tail in (b"", b"\x05", b"\x00"):
             check(b"\x00" * k + tail)
+    # the cap is on the output, whatever pushes it there: literals after the crossing point, a lone final zero
+    for x in (b"\x01" * 0x3000, b"\x01" * (0x3000 + 1), b"\x01" * (0x3000 + 2), b"\x01" * 0xC000, b"\x00\xff" * 49 + b"\x01\x02\x03",
+              b"\x00" * 49 + b"\x05" + b"\xaa" * 5000, b"\x00\xff" * 49 + b"\x00", b"\x00\xff" * 48 + b"\x07" * 60, b"\x07" * 0x2fff + b"\x00\x02\x07\x07"):
+        check(x)
     samples = [x.hex()[:60] for x in list(itertools.islice(iter(seen), 3))]
     return {"name": "zero-coding-small-scope", "evaluations": evals, "distinct_nontrivial": len(seen),
             "rule": f"every string over {{00,01,FF}} up to length {maxlen}; every zero-run length in {len(list(runs))} values x 9 contexts; "
